@@ -543,11 +543,14 @@ pub fn run(ctx: &Ctx) -> i32 {
         seed: ctx.seed,
         scenarios: tier.pick(6_000, 200_000),
         threads: super::threads(),
-        watchdog: Duration::from_secs(300),
+        watchdog: Duration::from_secs(tier.pick(90, 300)),
         budget: Duration::from_secs(tier.pick(120, 1200)),
         only: ctx.only,
     };
     let steps = tier.pick(40, 120);
+    // "cannot stall the network": a scenario thread diagnosed as spinning inside the library is a
+    // verdict for this property (never the watchdog by itself)
+    runner::set_spin_is_violation(true);
     let summary = runner::run_scenarios(&cfg, move |i, s| scenario(i, s, steps));
     runner::finish(Report {
         property: "C06",
